@@ -29,6 +29,7 @@ import (
 	"go/token"
 	"os"
 	"path/filepath"
+	"reflect"
 	"sort"
 	"strings"
 )
@@ -36,16 +37,27 @@ import (
 type guardSpec struct {
 	file    string
 	strct   string
-	mutex   string // field name; "" = embedded sync.Mutex / sync.RWMutex
-	guarded []string
+	mutex   string   // field name; "" = embedded sync.Mutex / sync.RWMutex
+	guarded []string // DECLARED guarded fields (properties.jsonl, C20 anchors.state)
+	infer   bool     // additionally INFER guarded fields (see inferGuards)
+	tag     string   // prefix of the emitted names when the struct name is not unique across packages
 }
 
-// the guarded state named by properties.jsonl (C20 anchors.state)
+// The mutex-carrying structs of the code the property's anchors touch.  For the first four the
+// guarded fields are DECLARED (properties.jsonl); for every struct with infer=true a field is
+// additionally INFERRED to be guarded by the struct's mutex when some function of the package
+// (other than a constructor, i.e. a function building the struct with a composite literal)
+// writes it while holding that mutex exclusively by its own Lock()  —  see inferGuards.
 var specs = []guardSpec{
-	{"internal/k8s/listener.go", "Listener", "", nil},
-	{"internal/allocator/allocator.go", "Allocator", "countersMutex", []string{"poolToCounters"}},
-	{"speaker/bgp_controller.go", "bgpController", "activeAdsMutex", []string{"activeAds"}},
-	{"internal/layer2/announcer.go", "Announce", "", []string{"nodeInterfaces", "arps", "ndps", "ips", "ipRefcnt"}},
+	{"internal/k8s/listener.go", "Listener", "", nil, false, ""},
+	{"internal/allocator/allocator.go", "Allocator", "countersMutex", []string{"poolToCounters"}, true, ""},
+	{"speaker/bgp_controller.go", "bgpController", "activeAdsMutex", []string{"activeAds"}, true, ""},
+	{"internal/layer2/announcer.go", "Announce", "", []string{"nodeInterfaces", "arps", "ndps", "ips", "ipRefcnt"}, true, ""},
+	{"internal/bgp/frr/frr.go", "sessionManager", "", nil, true, "frr"},
+	{"internal/bgp/frrk8s/frrk8s.go", "sessionManager", "", nil, true, "frrk8s"},
+	{"internal/bgp/native/native.go", "session", "mu", nil, true, "native"},
+	{"internal/speakerlist/speakerlist.go", "SpeakerList", "mlMux", nil, true, ""},
+	{"internal/k8s/controllers/frrk8s_config_controller.go", "FRRK8sReconciler", "", nil, true, ""},
 }
 
 // the status fetchers handed to the status reconcilers (they run outside the Listener mutex)
@@ -55,24 +67,49 @@ var fetcherMethods = map[string]string{ // struct -> method
 	"Announce":      "GetStatus",
 }
 
+// callbacks whose target is known: frrk8s sessionManager.configChangedCallback is the function
+// handed to SetEventCallback, which speaker/main.go feeds with client.BGPEventCallback, which
+// internal/k8s/k8s.go sets to frrk8sController.UpdateConfig.  The binding is used only when
+// bindingSites finds those three statements.
+var callbackBinding = map[string]string{"frrk8s/sessionManager.configChangedCallback": "FRRK8sReconciler.UpdateConfig"}
+var bindingOK bool
+
 type instr struct{ op, arg string }
 
+type namedIR struct {
+	name string
+	ir   []instr
+}
+
 type fileCtx struct {
-	spec      guardSpec
-	fset      *token.FileSet
-	file      *ast.File
-	mutexName string          // e.g. "Allocator.countersMutex"
-	embedded  bool            // lock methods are called on the receiver itself
-	guarded   map[string]bool // field names
-	fieldType map[string]ast.Expr
-	cbFields  map[string]bool          // func-typed fields of the struct (Listener)
-	chFields  map[string]bool          // channel-typed fields of the struct
-	structs   map[string]bool          // struct types declared in this file
-	funcs     map[string]*ast.FuncDecl // qualified name -> decl
-	primary   map[*ast.FuncDecl]bool   // declared in the anchored file (not in a sibling file of the package)
-	cur       *ast.FuncDecl            // function being translated
-	methods   map[string]string        // method name -> qualified name (methods of spec.strct)
-	plain     map[string]string        // package-level function name -> qualified name
+	spec                            guardSpec
+	fset                            *token.FileSet
+	file                            *ast.File
+	mutexName                       string          // e.g. "Allocator.countersMutex"
+	embedded                        bool            // lock methods are called on the receiver itself
+	guarded                         map[string]bool // field names
+	fieldType                       map[string]ast.Expr
+	cbFields                        map[string]bool          // func-typed fields of the struct (Listener)
+	chFields                        map[string]bool          // channel-typed fields of the struct
+	structs                         map[string]bool          // struct types declared in this file
+	funcs                           map[string]*ast.FuncDecl // qualified name -> decl
+	primary                         map[*ast.FuncDecl]bool   // declared in the anchored file (not in a sibling file of the package)
+	cur                             *ast.FuncDecl            // function being translated
+	methods                         map[string]string        // method name -> qualified name (methods of spec.strct)
+	aliasFields                     map[string]bool          // fields (of any struct of the package) of type S / *S
+	condFields                      map[string]bool          // sync.Cond fields of S
+	allFields                       []string                 // every named field of S, declaration order
+	nonBlocking                     map[*ast.SendStmt]bool
+	spawned                         map[string]bool              // functions started with `go`
+	valueUsed                       map[string]bool              // methods used as values (callbacks)
+	anon                            []namedIR                    // function literals that run later: entry points of their own
+	chanBind                        map[string]map[string]string // function -> parameter -> channel field its call sites pass
+	chanAlias                       map[string]map[string]string // the bindings in force (previous pass)
+	constructor                     map[string]bool              // functions that build the struct with a composite literal
+	sname                           string                       // emitted struct name (tag/strct)
+	inlinedClosures                 map[string]bool
+	savedUnstructured, savedMayLeak []string
+	plain                           map[string]string // package-level function name -> qualified name
 }
 
 var problems []string
@@ -87,33 +124,42 @@ func main() {
 		os.Exit(2)
 	}
 	repo, out := os.Args[1], os.Args[2]
+	bindingOK = bindingSites(repo)
 	var b strings.Builder
 	b.WriteString("(* GENERATED by tools/lockfacts from " + repo + " — do not edit *)\n")
 	b.WriteString("From Coq Require Import List String.\nFrom Verif Require Import Model.Lock.\nImport ListNotations.\nLocal Open Scope string_scope.\n\n")
 
-	var guards [][2]string
-	type fn struct {
-		name string
-		ir   []instr
-	}
-	var allFuncs []fn
+	var guardsDeclared, guardsInferred [][2]string
+	var allFuncs []namedIR
+	var entries []string
 	var escapes [][2]string
 	var callbacks []string
 	var fetchers []string
+	var covered []string
 	for _, sp := range specs {
 		fc := load(repo, sp)
 		if fc == nil {
 			continue
 		}
+		covered = append(covered, fmt.Sprintf("%s (%s, mutex %s)", fc.sname, filepath.Dir(sp.file), fc.mutexName))
+		declared := map[string]bool{}
 		for _, g := range sp.guarded {
-			guards = append(guards, [2]string{sp.strct + "." + g, fc.mutexName})
+			declared[g] = true
+			guardsDeclared = append(guardsDeclared, [2]string{fc.q(g), fc.mutexName})
+		}
+		if sp.infer {
+			for _, g := range fc.inferGuards() {
+				if !declared[g] {
+					guardsInferred = append(guardsInferred, [2]string{fc.q(g), fc.mutexName})
+				}
+			}
 		}
 		if sp.strct == "Listener" {
 			for c := range fc.cbFields {
 				callbacks = append(callbacks, c)
 			}
 		}
-		if m, ok := fetcherMethods[sp.strct]; ok {
+		if m, ok := fetcherMethods[sp.strct]; ok && sp.tag == "" {
 			q := sp.strct + "." + m
 			if fd := fc.funcs[q]; fd != nil {
 				fetchers = append(fetchers, fmt.Sprintf("(%q, %q, %s)", q, sp.strct, strList(receiverFields(fd))))
@@ -121,13 +167,13 @@ func main() {
 				problem("%s: fetcher %s not found", sp.file, q)
 			}
 		}
-		irs := map[string][]instr{}
-		var names []string
-		for name, fd := range fc.funcs {
-			irs[name] = fc.funcIR(name, fd)
-			names = append(names, name)
-			for _, e := range fc.escapesOf(fd) {
-				escapes = append(escapes, [2]string{name, sp.strct + "." + e})
+		irs, names := fc.translateAll()
+		for _, name := range names {
+			if fd := fc.funcs[name]; fd != nil {
+				fc.cur = fd
+				for _, e := range fc.escapesOf(fd) {
+					escapes = append(escapes, [2]string{name, fc.q(e)})
+				}
 			}
 		}
 		// keep functions that do something with locks / guarded fields, directly or through calls
@@ -139,7 +185,7 @@ func main() {
 					continue
 				}
 				for _, i := range irs[n] {
-					if i.op != "Call" || interesting[i.arg] {
+					if i.op != "Call" || interesting[i.arg] || crossCall(i.arg) {
 						interesting[n] = true
 						changed = true
 						break
@@ -147,21 +193,33 @@ func main() {
 				}
 			}
 		}
-		sort.Slice(names, func(i, j int) bool {
-			return fc.fset.Position(fc.funcs[names[i]].Pos()).Line < fc.fset.Position(fc.funcs[names[j]].Pos()).Line
-		})
+		// a function is an ENTRY POINT (a goroutine may start in it with no lock held) unless it is
+		// unexported, called from the analysed code, never started with `go` nor used as a value
+		called := map[string]bool{}
+		for _, n := range names {
+			for _, i := range irs[n] {
+				if i.op == "Call" && i.arg != n {
+					called[i.arg] = true
+				}
+			}
+		}
 		for _, n := range names {
 			if !interesting[n] {
 				continue
 			}
 			var ir []instr
 			for _, i := range irs[n] {
-				if i.op == "Call" && !interesting[i.arg] {
+				if i.op == "Call" && !interesting[i.arg] && !crossCall(i.arg) {
 					continue
 				}
 				ir = append(ir, i)
 			}
-			allFuncs = append(allFuncs, fn{n, ir})
+			allFuncs = append(allFuncs, namedIR{n, ir})
+			base := n[strings.LastIndex(n, ".")+1:]
+			exported := base != "" && base[0] >= 'A' && base[0] <= 'Z'
+			if strings.Contains(n, "$") || exported || fc.spawned[n] || fc.valueUsed[n] || !called[n] {
+				entries = append(entries, n)
+			}
 		}
 	}
 	sort.Strings(callbacks)
@@ -170,11 +228,13 @@ func main() {
 	registered := registrations(repo)
 	mains := mainCallbacks(repo)
 
-	b.WriteString("Definition guards : list (string * string) := [\n")
-	for i, g := range guards {
-		b.WriteString(fmt.Sprintf("  (%q, %q)%s\n", g[0], g[1], sep(i, len(guards))))
-	}
-	b.WriteString("].\n\nDefinition funcs : list (string * list instr) := [\n")
+	b.WriteString("(* covered structs: " + strings.Join(covered, "; ") + " *)\n")
+	b.WriteString("(* guard map, DECLARED part (properties.jsonl anchors) *)\n")
+	b.WriteString("Definition guards_declared : list (string * string) := " + pairListNL(guardsDeclared) + ".\n")
+	b.WriteString("(* guard map, INFERRED part: field written under the struct's mutex by some non-constructor function *)\n")
+	b.WriteString("Definition guards_inferred : list (string * string) := " + pairListNL(guardsInferred) + ".\n")
+	b.WriteString("Definition guards : list (string * string) := (guards_declared ++ guards_inferred)%list.\n")
+	b.WriteString("\nDefinition funcs : list (string * list instr) := [\n")
 	for i, f := range allFuncs {
 		var items []string
 		for _, in := range f.ir {
@@ -183,8 +243,18 @@ func main() {
 		b.WriteString(fmt.Sprintf("  (%q, [%s])%s\n", f.name, strings.Join(items, "; "), sep(i, len(allFuncs))))
 	}
 	b.WriteString("].\n\n")
-	b.WriteString("Definition unstructured : list string := " + strList(unstructured) + ".\n")
-	b.WriteString("Definition may_leak : list string := " + strList(mayLeak) + ".\n")
+	var binds [][2]string
+	if bindingOK {
+		for k, v := range callbackBinding {
+			binds = append(binds, [2]string{k, v})
+		}
+	}
+	b.WriteString("(* callback fields whose target is known (wiring statements found): their calls are emitted as Call *)\n")
+	b.WriteString("Definition callback_bindings : list (string * string) := " + pairList(binds) + ".\n")
+	b.WriteString("(* functions a goroutine may start in with no lock held; the others are reached only through calls *)\n")
+	b.WriteString("Definition entries : list string := " + strList(entries) + ".\n")
+	b.WriteString("Definition unstructured : list string := " + strList(dedup(unstructured)) + ".\n")
+	b.WriteString("Definition may_leak : list string := " + strList(dedup(mayLeak)) + ".\n")
 	b.WriteString("Definition spec_problems : list string := " + strList(problems) + ".\n")
 	b.WriteString("Definition listener_callbacks : list string := " + strList(callbacks) + ".\n")
 	b.WriteString("(* reconciler type, expression registered as its Handler *)\n")
@@ -203,6 +273,132 @@ func main() {
 	if err := os.WriteFile(out, []byte(b.String()), 0o644); err != nil {
 		panic(err)
 	}
+}
+
+func dedup(xs []string) []string {
+	seen := map[string]bool{}
+	var out []string
+	for _, x := range xs {
+		if !seen[x] {
+			seen[x] = true
+			out = append(out, x)
+		}
+	}
+	return out
+}
+
+func pairListNL(xs [][2]string) string {
+	q := make([]string, len(xs))
+	for i, x := range xs {
+		q[i] = fmt.Sprintf("  (%q, %q)", x[0], x[1])
+	}
+	return "[\n" + strings.Join(q, ";\n") + "\n]"
+}
+
+// translateAll translates every function of the package with the current guarded set; channel
+// parameter bindings found in one pass are in force in the next (two passes reach the fixpoint
+// for the one-level forwarding the code uses)
+func (fc *fileCtx) translateAll() (map[string][]instr, []string) {
+	var names []string
+	for name := range fc.funcs {
+		names = append(names, name)
+	}
+	sort.Slice(names, func(i, j int) bool {
+		fi, fj := fc.funcs[names[i]], fc.funcs[names[j]]
+		pi, pj := fc.fset.Position(fi.Pos()), fc.fset.Position(fj.Pos())
+		if fc.primary[fi] != fc.primary[fj] {
+			return fc.primary[fi]
+		}
+		if pi.Filename != pj.Filename {
+			return pi.Filename < pj.Filename
+		}
+		return pi.Line < pj.Line
+	})
+	var irs map[string][]instr
+	var order []string
+	for pass := 0; pass < 3; pass++ {
+		unstructured, mayLeak = fc.savedUnstructured, fc.savedMayLeak
+		fc.anon = nil
+		fc.spawned, fc.valueUsed = map[string]bool{}, map[string]bool{}
+		fc.chanBind = map[string]map[string]string{}
+		fc.nonBlocking = map[*ast.SendStmt]bool{}
+		irs = map[string][]instr{}
+		order = nil
+		for _, name := range names {
+			irs[name] = fc.funcIR(name, fc.funcs[name])
+			order = append(order, name)
+		}
+		for _, a := range fc.anon {
+			irs[a.name] = a.ir
+			order = append(order, a.name)
+		}
+		alias := map[string]map[string]string{}
+		for g, m := range fc.chanBind {
+			alias[g] = map[string]string{}
+			for p, f := range m {
+				if f != "?" {
+					alias[g][p] = f
+				}
+			}
+		}
+		fc.chanAlias = alias
+	}
+	return irs, order
+}
+
+// inferGuards: a field of the struct is INFERRED to be guarded by the struct's mutex when some
+// function of the package that is not a constructor writes it (assignment, element update,
+// delete, ++/--) at a point where the function itself holds the mutex exclusively (Lock() ...
+// Unlock() / defer Unlock() in the same function).  Every other access to such a field must
+// then hold the mutex too (repo_well_locked).  Fields only ever read under the mutex, or written
+// only by constructors, are not guarded.  Afterwards fc.guarded = declared ∪ inferred.
+func (fc *fileCtx) inferGuards() []string {
+	declared := fc.guarded
+	all := map[string]bool{}
+	for _, f := range fc.allFields {
+		if f != fc.spec.mutex && !fc.condFields[f] {
+			all[f] = true
+		}
+	}
+	fc.guarded = all
+	irs, names := fc.translateAll()
+	inferred := map[string]bool{}
+	for _, n := range names {
+		base := n
+		if i := strings.Index(n, "$"); i >= 0 {
+			base = n[:i]
+		}
+		if fc.constructor[base] {
+			continue
+		}
+		held := 0
+		for _, i := range inlineIR(irs, n, 8) {
+			switch i.op {
+			case "Acq":
+				held++
+			case "Rel":
+				if held > 0 {
+					held--
+				}
+			case "WrW", "WrE":
+				if held > 0 {
+					inferred[strings.TrimPrefix(i.arg, fc.sname+".")] = true
+				}
+			}
+		}
+	}
+	fc.guarded = map[string]bool{}
+	for g := range declared {
+		fc.guarded[g] = true
+	}
+	var out []string
+	for _, f := range fc.allFields {
+		if inferred[f] {
+			fc.guarded[f] = true
+			out = append(out, f)
+		}
+	}
+	return out
 }
 
 func sep(i, n int) string {
@@ -262,61 +458,111 @@ func load(repo string, sp guardSpec) *fileCtx {
 	}
 	fc := &fileCtx{spec: sp, fset: fset, file: f, guarded: map[string]bool{}, fieldType: map[string]ast.Expr{},
 		cbFields: map[string]bool{}, chFields: map[string]bool{}, structs: map[string]bool{}, funcs: map[string]*ast.FuncDecl{}, primary: map[*ast.FuncDecl]bool{},
-		methods: map[string]string{}, plain: map[string]string{}}
-	found := false
-	for _, d := range f.Decls {
-		gd, ok := d.(*ast.GenDecl)
-		if !ok {
-			continue
+		methods: map[string]string{}, plain: map[string]string{}, aliasFields: map[string]bool{}, condFields: map[string]bool{},
+		constructor: map[string]bool{}, chanAlias: map[string]map[string]string{}, chanBind: map[string]map[string]string{},
+		spawned: map[string]bool{}, valueUsed: map[string]bool{}, nonBlocking: map[*ast.SendStmt]bool{}, inlinedClosures: map[string]bool{}}
+	fc.sname = sp.strct
+	prefix := ""
+	if sp.tag != "" {
+		prefix = sp.tag + "/"
+		fc.sname = prefix + sp.strct
+	}
+	fc.savedUnstructured, fc.savedMayLeak = unstructured, mayLeak
+	files := []*ast.File{f}
+	sibs, _ := filepath.Glob(filepath.Join(repo, filepath.Dir(sp.file), "*.go"))
+	sort.Strings(sibs)
+	if len(sp.guarded) > 0 || sp.infer { // the other non-test files of the package may touch the fields too
+		for _, sib := range sibs {
+			base := filepath.Base(sib)
+			if strings.HasSuffix(base, "_test.go") || strings.HasPrefix(base, "zz_verif") || base == filepath.Base(sp.file) {
+				continue
+			}
+			sf, err := parser.ParseFile(fset, sib, nil, parser.SkipObjectResolution)
+			if err != nil {
+				problem("cannot parse %s: %v", sib, err)
+				continue
+			}
+			files = append(files, sf)
 		}
-		for _, s := range gd.Specs {
-			ts, ok := s.(*ast.TypeSpec)
+	}
+	isS := func(t ast.Expr) bool {
+		if st, ok := t.(*ast.StarExpr); ok {
+			t = st.X
+		}
+		id, ok := t.(*ast.Ident)
+		return ok && id.Name == sp.strct
+	}
+	found := false
+	for fi, file := range files {
+		for _, d := range file.Decls {
+			gd, ok := d.(*ast.GenDecl)
 			if !ok {
 				continue
 			}
-			st, ok := ts.Type.(*ast.StructType)
-			if !ok {
-				continue
-			}
-			fc.structs[ts.Name.Name] = true
-			if ts.Name.Name != sp.strct {
-				continue
-			}
-			found = true
-			haveMutex := false
-			for _, fld := range st.Fields.List {
-				if len(fld.Names) == 0 { // embedded
-					if sp.mutex == "" && isSync(fld.Type, "Mutex", "RWMutex") {
-						haveMutex = true
-						fc.embedded = true
-						fc.mutexName = sp.strct + "." + fld.Type.(*ast.SelectorExpr).Sel.Name
-					}
+			for _, s := range gd.Specs {
+				ts, ok := s.(*ast.TypeSpec)
+				if !ok {
 					continue
 				}
-				for _, n := range fld.Names {
-					fc.fieldType[n.Name] = fld.Type
-					if sp.mutex != "" && n.Name == sp.mutex {
-						if isSync(fld.Type, "Mutex", "RWMutex") {
-							haveMutex = true
-							fc.mutexName = sp.strct + "." + n.Name
+				st, ok := ts.Type.(*ast.StructType)
+				if !ok {
+					continue
+				}
+				fc.structs[ts.Name.Name] = true
+				for _, fld := range st.Fields.List { // fields through which the struct is reached
+					if isS(fld.Type) {
+						for _, n := range fld.Names {
+							fc.aliasFields[n.Name] = true
 						}
 					}
-					if _, isFunc := fld.Type.(*ast.FuncType); isFunc {
-						fc.cbFields[n.Name] = true
+				}
+				if ts.Name.Name != sp.strct || fi != 0 {
+					continue
+				}
+				found = true
+				haveMutex := false
+				for _, fld := range st.Fields.List {
+					if len(fld.Names) == 0 { // embedded
+						if sp.mutex == "" && isSync(fld.Type, "Mutex", "RWMutex") {
+							haveMutex = true
+							fc.embedded = true
+							fc.mutexName = fc.sname + "." + fld.Type.(*ast.SelectorExpr).Sel.Name
+						}
+						continue
 					}
-					if _, isChan := fld.Type.(*ast.ChanType); isChan {
-						fc.chFields[n.Name] = true
+					for _, n := range fld.Names {
+						fc.fieldType[n.Name] = fld.Type
+						fc.allFields = append(fc.allFields, n.Name)
+						if sp.mutex != "" && n.Name == sp.mutex {
+							if isSync(fld.Type, "Mutex", "RWMutex") {
+								haveMutex = true
+								fc.mutexName = fc.sname + "." + n.Name
+							}
+						}
+						t := fld.Type
+						if st, ok := t.(*ast.StarExpr); ok {
+							t = st.X
+						}
+						if isSync(t, "Cond") {
+							fc.condFields[n.Name] = true
+						}
+						if _, isFunc := fld.Type.(*ast.FuncType); isFunc {
+							fc.cbFields[n.Name] = true
+						}
+						if _, isChan := fld.Type.(*ast.ChanType); isChan {
+							fc.chFields[n.Name] = true
+						}
 					}
 				}
-			}
-			if !haveMutex {
-				problem("%s: struct %s has no mutex %q of type sync.Mutex/RWMutex", sp.file, sp.strct, sp.mutex)
-			}
-			for _, g := range sp.guarded {
-				if fc.fieldType[g] == nil {
-					problem("%s: struct %s has no field %s", sp.file, sp.strct, g)
+				if !haveMutex {
+					problem("%s: struct %s has no mutex %q of type sync.Mutex/RWMutex", sp.file, sp.strct, sp.mutex)
 				}
-				fc.guarded[g] = true
+				for _, g := range sp.guarded {
+					if fc.fieldType[g] == nil {
+						problem("%s: struct %s has no field %s", sp.file, sp.strct, g)
+					}
+					fc.guarded[g] = true
+				}
 			}
 		}
 	}
@@ -324,7 +570,7 @@ func load(repo string, sp guardSpec) *fileCtx {
 		problem("%s: struct %s not found", sp.file, sp.strct)
 		return nil
 	}
-	addFuncs := func(file *ast.File, primary bool) {
+	for fi, file := range files {
 		for _, d := range file.Decls {
 			fd, ok := d.(*ast.FuncDecl)
 			if !ok || fd.Body == nil {
@@ -333,7 +579,7 @@ func load(repo string, sp guardSpec) *fileCtx {
 			var q string
 			if fd.Recv != nil && len(fd.Recv.List) == 1 {
 				rt := recvType(fd.Recv.List[0].Type)
-				q = rt + "." + fd.Name.Name
+				q = prefix + rt + "." + fd.Name.Name
 				if rt == sp.strct {
 					fc.methods[fd.Name.Name] = q
 				}
@@ -345,36 +591,13 @@ func load(repo string, sp guardSpec) *fileCtx {
 				fc.plain[fd.Name.Name] = q
 			}
 			fc.funcs[q] = fd
-			fc.primary[fd] = primary
-		}
-	}
-	addFuncs(f, true)
-	// the other non-test files of the package may touch the guarded fields too
-	if len(sp.guarded) > 0 {
-		sibs, _ := filepath.Glob(filepath.Join(repo, filepath.Dir(sp.file), "*.go"))
-		sort.Strings(sibs)
-		for _, sib := range sibs {
-			base := filepath.Base(sib)
-			if strings.HasSuffix(base, "_test.go") || strings.HasPrefix(base, "zz_verif") || base == filepath.Base(sp.file) {
-				continue
-			}
-			sf, err := parser.ParseFile(fset, sib, nil, parser.SkipObjectResolution)
-			if err != nil {
-				problem("cannot parse %s: %v", sib, err)
-				continue
-			}
-			for _, d := range sf.Decls { // struct types declared in sibling files are values too
-				if gd, ok := d.(*ast.GenDecl); ok {
-					for _, s := range gd.Specs {
-						if ts, ok := s.(*ast.TypeSpec); ok {
-							if _, ok := ts.Type.(*ast.StructType); ok {
-								fc.structs[ts.Name.Name] = true
-							}
-						}
-					}
+			fc.primary[fd] = fi == 0
+			ast.Inspect(fd.Body, func(x ast.Node) bool { // a constructor builds the struct with a composite literal
+				if cl, ok := x.(*ast.CompositeLit); ok && cl.Type != nil && isS(cl.Type) {
+					fc.constructor[q] = true
 				}
-			}
-			addFuncs(sf, false)
+				return true
+			})
 		}
 	}
 	return fc
@@ -399,7 +622,27 @@ func recvName(fd *ast.FuncDecl) string {
 	return fd.Recv.List[0].Names[0].Name
 }
 
-// lockOp recognises <x>.Lock() / <x>.<mutex>.Lock() etc. on the file's mutex
+// isBase: e denotes a value of the anchored struct: an identifier (not the receiver of a
+// method of ANOTHER struct of the package) or <ident>.<field of type *S>
+func (fc *fileCtx) isBase(e ast.Expr) bool {
+	switch t := e.(type) {
+	case *ast.Ident:
+		if fc.cur != nil && fc.cur.Recv != nil && recvName(fc.cur) == t.Name {
+			rt := recvType(fc.cur.Recv.List[0].Type)
+			if rt != fc.spec.strct && fc.structs[rt] {
+				return false
+			}
+		}
+		return true
+	case *ast.SelectorExpr:
+		if _, ok := t.X.(*ast.Ident); ok && fc.aliasFields[t.Sel.Name] {
+			return true
+		}
+	}
+	return false
+}
+
+// lockOp recognises <base>.Lock() / <base>.<mutex>.Lock() etc. on the struct's mutex
 func (fc *fileCtx) lockOp(e ast.Expr) (string, bool) {
 	call, ok := e.(*ast.CallExpr)
 	if !ok || len(call.Args) != 0 {
@@ -423,11 +666,10 @@ func (fc *fileCtx) lockOp(e ast.Expr) (string, bool) {
 		return "", false
 	}
 	if fc.embedded {
-		id, ok := sel.X.(*ast.Ident)
-		if !ok {
+		if !fc.isBase(sel.X) {
 			return "", false
 		}
-		if fc.cur != nil && !fc.primary[fc.cur] {
+		if id, ok := sel.X.(*ast.Ident); ok && fc.cur != nil && !fc.primary[fc.cur] {
 			if fc.cur.Recv == nil || recvName(fc.cur) != id.Name || recvType(fc.cur.Recv.List[0].Type) != fc.spec.strct {
 				return "", false
 			}
@@ -435,26 +677,27 @@ func (fc *fileCtx) lockOp(e ast.Expr) (string, bool) {
 		return op, true
 	}
 	inner, ok := sel.X.(*ast.SelectorExpr)
-	if !ok || inner.Sel.Name != fc.spec.mutex {
+	if !ok || inner.Sel.Name != fc.spec.mutex || !fc.isBase(inner.X) {
 		return "", false
 	}
 	return op, true
 }
 
-func (fc *fileCtx) hasNestedLockOp(n ast.Node) bool {
-	found := false
-	ast.Inspect(n, func(x ast.Node) bool {
-		if e, ok := x.(ast.Expr); ok {
-			if _, is := fc.lockOp(e); is {
-				found = true
-			}
-		}
-		return !found
-	})
-	return found
+// condWait recognises <base>.<cond field>.Wait(): releases and re-acquires the mutex
+func (fc *fileCtx) condWait(e ast.Expr) bool {
+	call, ok := e.(*ast.CallExpr)
+	if !ok || len(call.Args) != 0 {
+		return false
+	}
+	sel, ok := call.Fun.(*ast.SelectorExpr)
+	if !ok || sel.Sel.Name != "Wait" {
+		return false
+	}
+	inner, ok := sel.X.(*ast.SelectorExpr)
+	return ok && fc.condFields[inner.Sel.Name] && fc.isBase(inner.X)
 }
 
-// guardedRoot: e is <ident>.<guarded field> possibly under index/slice/paren/star;
+// guardedRoot: e is <base>.<guarded field> possibly under index/slice/paren/star;
 // returns the field and whether e is the field itself (depth 0)
 func (fc *fileCtx) guardedRoot(e ast.Expr) (field string, direct bool, sel *ast.SelectorExpr) {
 	depth := 0
@@ -472,7 +715,7 @@ func (fc *fileCtx) guardedRoot(e ast.Expr) (field string, direct bool, sel *ast.
 			e = t.X
 			depth++
 		case *ast.SelectorExpr:
-			if _, ok := t.X.(*ast.Ident); ok && fc.guarded[t.Sel.Name] {
+			if fc.guarded[t.Sel.Name] && fc.isBase(t.X) {
 				return t.Sel.Name, depth == 0, t
 			}
 			// a field of an element: a.f[k].x = ...
@@ -484,103 +727,204 @@ func (fc *fileCtx) guardedRoot(e ast.Expr) (field string, direct bool, sel *ast.
 	}
 }
 
-// accesses lists, in source order, the guarded-field accesses, in-file calls
-// and callback calls under node n
-func (fc *fileCtx) accesses(fd *ast.FuncDecl, n ast.Node) []instr {
-	var out []instr
-	skip := map[*ast.SelectorExpr]bool{}
-	q := func(f string) string { return fc.spec.strct + "." + f }
-	rn := recvName(fd)
-	// a send that is a case of a select with a default clause does not block
-	nonBlocking := map[*ast.SendStmt]bool{}
-	ast.Inspect(n, func(x ast.Node) bool {
-		if sel, ok := x.(*ast.SelectStmt); ok {
-			hasDefault := false
-			for _, c := range sel.Body.List {
-				if cc, ok := c.(*ast.CommClause); ok && cc.Comm == nil {
-					hasDefault = true
+// walker translates one function (or function literal) into the flat instruction sequence
+type walker struct {
+	fc    *fileCtx
+	fd    *ast.FuncDecl
+	name  string
+	nlit  int
+	typed map[string]bool
+}
+
+func (fc *fileCtx) q(f string) string { return fc.sname + "." + f }
+
+func (w *walker) chanField(e ast.Expr) string {
+	fc := w.fc
+	if s, ok := e.(*ast.SelectorExpr); ok {
+		if fc.chFields[s.Sel.Name] && fc.isBase(s.X) {
+			return s.Sel.Name
+		}
+	}
+	if id, ok := e.(*ast.Ident); ok { // a parameter every call site binds to a channel field
+		if f := fc.chanAlias[w.name][id.Name]; f != "" {
+			return f
+		}
+	}
+	return ""
+}
+
+// callee resolves a call of a function / method of the analysed package
+func (w *walker) callee(fun ast.Expr) string {
+	fc := w.fc
+	switch t := fun.(type) {
+	case *ast.Ident:
+		return fc.plain[t.Name]
+	case *ast.SelectorExpr:
+		if g, ok := fc.methods[t.Sel.Name]; ok && w.typedBase(t.X) {
+			return g
+		}
+	}
+	return ""
+}
+
+// typedBase: e is known (syntactically) to be a value of the anchored struct: the receiver of a
+// method of the struct, a parameter or variable declared with the struct's type, a local built
+// with a composite literal of it, or <ident>.<field of type *S>
+func (w *walker) typedBase(e ast.Expr) bool {
+	fc := w.fc
+	switch t := e.(type) {
+	case *ast.SelectorExpr:
+		_, ok := t.X.(*ast.Ident)
+		return ok && fc.aliasFields[t.Sel.Name]
+	case *ast.Ident:
+		if w.typed == nil {
+			w.typed = map[string]bool{}
+			isS := func(x ast.Expr) bool {
+				if st, ok := x.(*ast.StarExpr); ok {
+					x = st.X
 				}
+				if u, ok := x.(*ast.UnaryExpr); ok {
+					x = u.X
+				}
+				if cl, ok := x.(*ast.CompositeLit); ok {
+					x = cl.Type
+				}
+				id, ok := x.(*ast.Ident)
+				return ok && id.Name == fc.spec.strct
 			}
-			if hasDefault {
-				for _, c := range sel.Body.List {
-					if cc, ok := c.(*ast.CommClause); ok {
-						if snd, ok := cc.Comm.(*ast.SendStmt); ok {
-							nonBlocking[snd] = true
+			if w.fd.Recv != nil && isS(w.fd.Recv.List[0].Type) {
+				w.typed[recvName(w.fd)] = true
+			}
+			if w.fd.Type.Params != nil {
+				for _, p := range w.fd.Type.Params.List {
+					if isS(p.Type) {
+						for _, n := range p.Names {
+							w.typed[n.Name] = true
 						}
 					}
 				}
 			}
+			ast.Inspect(w.fd.Body, func(x ast.Node) bool {
+				switch a := x.(type) {
+				case *ast.AssignStmt:
+					if len(a.Lhs) == len(a.Rhs) {
+						for i, r := range a.Rhs {
+							if id, ok := a.Lhs[i].(*ast.Ident); ok && isS(r) {
+								if _, lit := r.(*ast.Ident); !lit {
+									w.typed[id.Name] = true
+								}
+							}
+						}
+					}
+				case *ast.ValueSpec:
+					if a.Type != nil && isS(a.Type) {
+						for _, n := range a.Names {
+							w.typed[n.Name] = true
+						}
+					}
+				}
+				return true
+			})
 		}
-		return true
-	})
-	chanField := func(e ast.Expr) string {
-		if s, ok := e.(*ast.SelectorExpr); ok {
-			if _, ok := s.X.(*ast.Ident); ok && fc.chFields[s.Sel.Name] {
-				return s.Sel.Name
-			}
-		}
-		return ""
+		return w.typed[t.Name]
 	}
+	return false
+}
+
+// closure: a function literal that is not invoked on the spot runs later, possibly on another
+// goroutine and without the locks held here: it becomes an entry point of its own
+func (w *walker) closure(fl *ast.FuncLit, kind string) {
+	w.nlit++
+	name := fmt.Sprintf("%s$%s%d", w.name, kind, w.nlit)
+	sub := &walker{fc: w.fc, fd: w.fd, name: name, typed: w.typed}
+	w.fc.chanAlias[name] = w.fc.chanAlias[w.name]
+	ir := sub.funcBody(fl.Body)
+	w.nlit += sub.nlit
+	if len(ir) > 0 {
+		w.fc.anon = append(w.fc.anon, namedIR{name, ir})
+	}
+}
+
+// expr lists, in source order, the guarded-field accesses, in-package calls, callback calls and
+// channel operations of an expression or simple statement (no nested statement lists)
+func (w *walker) expr(n ast.Node) []instr {
+	if n == nil || (reflect.ValueOf(n).Kind() == reflect.Ptr && reflect.ValueOf(n).IsNil()) {
+		return nil
+	}
+	fc := w.fc
+	var out []instr
+	skip := map[*ast.SelectorExpr]bool{}
+	calleeSel := map[*ast.SelectorExpr]bool{}
+	iife := map[*ast.FuncLit]bool{}
 	ast.Inspect(n, func(x ast.Node) bool {
 		switch t := x.(type) {
+		case *ast.FuncLit:
+			// invoked on the spot, or handed to a call / stored in a local: assumed to run here, under
+			// the locks held here (sort.Slice, CreateOrPatch, ...); only `go func` starts elsewhere
+			if !iife[t] {
+				fc.inlinedClosures[w.name] = true
+			}
+			out = append(out, w.funcBody(t.Body)...)
+			return false
 		case *ast.SendStmt:
-			if c := chanField(t.Chan); c != "" && !nonBlocking[t] {
-				out = append(out, instr{"Send", q(c)})
+			if c := w.chanField(t.Chan); c != "" && !w.fc.nonBlocking[t] {
+				out = append(out, instr{"Send", fc.q(c)})
 			}
 		case *ast.UnaryExpr:
 			if t.Op == token.ARROW {
-				if c := chanField(t.X); c != "" {
-					out = append(out, instr{"Recv", q(c)})
+				if c := w.chanField(t.X); c != "" {
+					out = append(out, instr{"Recv", fc.q(c)})
 				}
-			}
-		case *ast.RangeStmt:
-			if c := chanField(t.X); c != "" {
-				out = append(out, instr{"Recv", q(c)})
 			}
 		case *ast.AssignStmt:
 			for _, lhs := range t.Lhs {
 				if f, direct, sel := fc.guardedRoot(lhs); f != "" {
 					skip[sel] = true
 					if direct && (t.Tok == token.ASSIGN || t.Tok == token.DEFINE) {
-						out = append(out, instr{"WrW", q(f)})
+						out = append(out, instr{"WrW", fc.q(f)})
 					} else {
-						out = append(out, instr{"WrE", q(f)})
+						out = append(out, instr{"WrE", fc.q(f)})
 					}
 				}
 			}
 		case *ast.IncDecStmt:
 			if f, _, sel := fc.guardedRoot(t.X); f != "" {
 				skip[sel] = true
-				out = append(out, instr{"WrE", q(f)})
+				out = append(out, instr{"WrE", fc.q(f)})
 			}
 		case *ast.CallExpr:
-			if id, ok := t.Fun.(*ast.Ident); ok {
-				if id.Name == "delete" && len(t.Args) == 2 {
-					if f, _, sel := fc.guardedRoot(t.Args[0]); f != "" {
-						skip[sel] = true
-						out = append(out, instr{"WrE", q(f)})
-					}
-				} else if g, ok := fc.plain[id.Name]; ok {
-					out = append(out, instr{"Call", g})
+			if fl, ok := t.Fun.(*ast.FuncLit); ok {
+				iife[fl] = true
+			}
+			if s, ok := t.Fun.(*ast.SelectorExpr); ok {
+				calleeSel[s] = true
+			}
+			if id, ok := t.Fun.(*ast.Ident); ok && id.Name == "delete" && len(t.Args) == 2 {
+				if f, _, sel := fc.guardedRoot(t.Args[0]); f != "" {
+					skip[sel] = true
+					out = append(out, instr{"WrE", fc.q(f)})
 				}
+			} else if g := w.callee(t.Fun); g != "" {
+				out = append(out, instr{"Call", g})
+				w.bindChanArgs(g, t)
 			}
 			if sel, ok := t.Fun.(*ast.SelectorExpr); ok {
-				if x, ok := sel.X.(*ast.Ident); ok && x.Name == rn && rn != "" {
-					if g, ok := fc.methods[sel.Sel.Name]; ok && recvType(fd.Recv.List[0].Type) == fc.spec.strct {
+				if fc.cbFields[sel.Sel.Name] && fc.isBase(sel.X) {
+					if fc.guarded[sel.Sel.Name] {
+						skip[sel] = true
+						out = append(out, instr{"Rd", fc.q(sel.Sel.Name)})
+					}
+					if g := callbackBinding[fc.q(sel.Sel.Name)]; g != "" && bindingOK {
 						out = append(out, instr{"Call", g})
-					} else if fc.cbFields[sel.Sel.Name] && recvType(fd.Recv.List[0].Type) == fc.spec.strct {
+					} else {
 						out = append(out, instr{"CallCb", sel.Sel.Name})
 					}
 				}
-				// mutating method on an element of a guarded container
+				// mutating method on (an element of) a guarded container
 				if sel.Sel.Name == "Insert" || sel.Sel.Name == "Delete" {
-					if f, direct, s2 := fc.guardedRoot(sel.X); f != "" {
+					if f, _, s2 := fc.guardedRoot(sel.X); f != "" {
 						skip[s2] = true
-						if direct {
-							out = append(out, instr{"WrE", q(f)})
-						} else {
-							out = append(out, instr{"WrE", q(f)})
-						}
+						out = append(out, instr{"WrE", fc.q(f)})
 					}
 				}
 			}
@@ -588,8 +932,15 @@ func (fc *fileCtx) accesses(fd *ast.FuncDecl, n ast.Node) []instr {
 			if skip[t] {
 				return true
 			}
-			if _, ok := t.X.(*ast.Ident); ok && fc.guarded[t.Sel.Name] {
-				out = append(out, instr{"Rd", q(t.Sel.Name)})
+			if fc.guarded[t.Sel.Name] && fc.isBase(t.X) {
+				out = append(out, instr{"Rd", fc.q(t.Sel.Name)})
+				return true
+			}
+			// a method of the struct used as a value (callback, goroutine body): an entry point
+			if !calleeSel[t] {
+				if g, ok := fc.methods[t.Sel.Name]; ok && w.typedBase(t.X) {
+					fc.valueUsed[g] = true
+				}
 			}
 		}
 		return true
@@ -597,66 +948,196 @@ func (fc *fileCtx) accesses(fd *ast.FuncDecl, n ast.Node) []instr {
 	return out
 }
 
-func (fc *fileCtx) funcIR(name string, fd *ast.FuncDecl) []instr {
-	fc.cur = fd
+// bindChanArgs records which channel field a call passes for which parameter of g
+func (w *walker) bindChanArgs(g string, call *ast.CallExpr) {
+	fd := w.fc.funcs[g]
+	if fd == nil || fd.Type.Params == nil {
+		return
+	}
+	var params []string
+	for _, p := range fd.Type.Params.List {
+		for _, n := range p.Names {
+			params = append(params, n.Name)
+		}
+	}
+	for i, a := range call.Args {
+		if i >= len(params) {
+			break
+		}
+		if c := w.chanField(a); c != "" {
+			if w.fc.chanBind[g] == nil {
+				w.fc.chanBind[g] = map[string]string{}
+			}
+			if old, ok := w.fc.chanBind[g][params[i]]; ok && old != c {
+				w.fc.chanBind[g][params[i]] = "?" // bound to different fields: no alias
+			} else {
+				w.fc.chanBind[g][params[i]] = c
+			}
+		}
+	}
+}
+
+// funcBody: a function scope — deferred actions run at its end in LIFO order
+func (w *walker) funcBody(body *ast.BlockStmt) []instr {
+	var defers [][]instr
+	ir := w.stmts(body.List, true, &defers)
+	for i := len(defers) - 1; i >= 0; i-- {
+		ir = append(ir, defers[i]...)
+	}
+	return ir
+}
+
+func hasJump(n ast.Node, from, to token.Pos) bool {
+	found := false
+	ast.Inspect(n, func(x ast.Node) bool {
+		switch t := x.(type) {
+		case *ast.ReturnStmt:
+			if t.Pos() > from && t.Pos() < to {
+				found = true
+			}
+		case *ast.BranchStmt:
+			if t.Tok == token.GOTO && t.Pos() > from && t.Pos() < to {
+				found = true
+			}
+		case *ast.FuncLit:
+			return false
+		}
+		return !found
+	})
+	return found
+}
+
+// stmts translates a statement list.  Lock operations may occur in any list provided the list
+// is balanced: what it acquires it releases itself (or, at the top level of a function scope,
+// by a defer).  Then the flat sequence over-approximates every path through the function.
+func (w *walker) stmts(list []ast.Stmt, top bool, defers *[][]instr) []instr {
+	fc := w.fc
 	var ir []instr
-	var deferred [][]instr
-	type span struct{ from, to token.Pos }
-	var held []token.Pos // positions of top-level, non-deferred acquisitions still open
-	var critical []span
-	for _, st := range fd.Body.List {
+	var open []token.Pos
+	m := fc.mutexName
+	for _, st := range list {
 		switch s := st.(type) {
 		case *ast.ExprStmt:
 			if op, ok := fc.lockOp(s.X); ok {
-				ir = append(ir, instr{op, fc.mutexName})
+				ir = append(ir, instr{op, m})
 				if op == "Acq" || op == "AcqR" {
-					held = append(held, s.Pos())
-				} else if len(held) > 0 {
-					critical = append(critical, span{held[len(held)-1], s.Pos()})
-					held = held[:len(held)-1]
+					open = append(open, s.Pos())
+				} else if len(open) > 0 {
+					from := open[len(open)-1]
+					open = open[:len(open)-1]
+					for _, x := range list {
+						if hasJump(x, from, s.Pos()) {
+							mayLeak = append(mayLeak, w.name)
+						}
+					}
+				} else if !top {
+					unstructured = append(unstructured, w.name+": releases in a nested block a lock acquired outside it")
 				}
 				continue
 			}
+			if fc.condWait(s.X) {
+				ir = append(ir, instr{"Rel", m}, instr{"Acq", m})
+				continue
+			}
+			ir = append(ir, w.expr(s)...)
 		case *ast.DeferStmt:
 			if op, ok := fc.lockOp(s.Call); ok {
-				deferred = append(deferred, []instr{{op, fc.mutexName}})
-				if len(held) > 0 {
-					held = held[:len(held)-1] // released at every return
+				if !top {
+					unstructured = append(unstructured, w.name+": defer of an unlock inside a nested block")
+				}
+				*defers = append(*defers, []instr{{op, m}})
+				if len(open) > 0 {
+					open = open[:len(open)-1]
 				}
 				continue
 			}
 			if fl, ok := s.Call.Fun.(*ast.FuncLit); ok {
-				if fc.hasNestedLockOp(fl.Body) {
-					unstructured = append(unstructured, name)
+				var args []instr
+				for _, a := range s.Call.Args {
+					args = append(args, w.expr(a)...)
 				}
-				deferred = append(deferred, fc.accesses(fd, fl.Body))
+				ir = append(ir, args...) // arguments are evaluated at the defer statement
+				*defers = append(*defers, w.funcBody(fl.Body))
 				continue
 			}
-			deferred = append(deferred, fc.accesses(fd, s.Call))
-			continue
-		}
-		if fc.hasNestedLockOp(st) {
-			unstructured = append(unstructured, name)
-		}
-		ir = append(ir, fc.accesses(fd, st)...)
-	}
-	for i := len(deferred) - 1; i >= 0; i-- {
-		ir = append(ir, deferred[i]...)
-	}
-	// an explicit (non-deferred) release skipped by an early return leaks the lock
-	for _, c := range critical {
-		leak := false
-		ast.Inspect(fd.Body, func(x ast.Node) bool {
-			if r, ok := x.(*ast.ReturnStmt); ok && r.Pos() > c.from && r.Pos() < c.to {
-				leak = true
+			*defers = append(*defers, w.expr(s.Call))
+		case *ast.GoStmt:
+			for _, a := range s.Call.Args {
+				ir = append(ir, w.expr(a)...)
 			}
-			return !leak
-		})
-		if leak {
-			mayLeak = append(mayLeak, name)
+			if fl, ok := s.Call.Fun.(*ast.FuncLit); ok {
+				w.closure(fl, "go")
+			} else if g := w.callee(s.Call.Fun); g != "" {
+				fc.spawned[g] = true
+				w.bindChanArgs(g, s.Call)
+			}
+		case *ast.BlockStmt:
+			ir = append(ir, w.stmts(s.List, false, defers)...)
+		case *ast.LabeledStmt:
+			ir = append(ir, w.stmts([]ast.Stmt{s.Stmt}, top, defers)...)
+		case *ast.IfStmt:
+			ir = append(ir, w.expr(s.Init)...)
+			ir = append(ir, w.expr(s.Cond)...)
+			ir = append(ir, w.stmts(s.Body.List, false, defers)...)
+			if s.Else != nil {
+				ir = append(ir, w.stmts([]ast.Stmt{s.Else}, false, defers)...)
+			}
+		case *ast.ForStmt:
+			ir = append(ir, w.expr(s.Init)...)
+			ir = append(ir, w.expr(s.Cond)...)
+			ir = append(ir, w.stmts(s.Body.List, false, defers)...)
+			ir = append(ir, w.expr(s.Post)...)
+		case *ast.RangeStmt:
+			if c := w.chanField(s.X); c != "" {
+				ir = append(ir, instr{"Recv", fc.q(c)})
+			}
+			ir = append(ir, w.expr(s.X)...)
+			ir = append(ir, w.stmts(s.Body.List, false, defers)...)
+		case *ast.SwitchStmt:
+			ir = append(ir, w.expr(s.Init)...)
+			ir = append(ir, w.expr(s.Tag)...)
+			for _, c := range s.Body.List {
+				cc := c.(*ast.CaseClause)
+				for _, e := range cc.List {
+					ir = append(ir, w.expr(e)...)
+				}
+				ir = append(ir, w.stmts(cc.Body, false, defers)...)
+			}
+		case *ast.TypeSwitchStmt:
+			ir = append(ir, w.expr(s.Init)...)
+			ir = append(ir, w.expr(s.Assign)...)
+			for _, c := range s.Body.List {
+				ir = append(ir, w.stmts(c.(*ast.CaseClause).Body, false, defers)...)
+			}
+		case *ast.SelectStmt:
+			hasDefault := false
+			for _, c := range s.Body.List {
+				if c.(*ast.CommClause).Comm == nil {
+					hasDefault = true
+				}
+			}
+			for _, c := range s.Body.List {
+				cc := c.(*ast.CommClause)
+				if snd, ok := cc.Comm.(*ast.SendStmt); ok && hasDefault {
+					fc.nonBlocking[snd] = true // a send next to a default clause does not block
+				}
+				ir = append(ir, w.expr(cc.Comm)...)
+				ir = append(ir, w.stmts(cc.Body, false, defers)...)
+			}
+		default:
+			ir = append(ir, w.expr(st)...)
 		}
+	}
+	if len(open) > 0 && !top {
+		unstructured = append(unstructured, w.name+": a nested block acquires a lock it does not release")
 	}
 	return ir
+}
+
+func (fc *fileCtx) funcIR(name string, fd *ast.FuncDecl) []instr {
+	fc.cur = fd
+	w := &walker{fc: fc, fd: fd, name: name}
+	return w.funcBody(fd.Body)
 }
 
 // ---- escapes: a function returns a guarded slice / map / pointer without copying ----
@@ -687,7 +1168,7 @@ func (fc *fileCtx) typeOfGuardedExpr(e ast.Expr) ast.Expr {
 	case *ast.ParenExpr:
 		return fc.typeOfGuardedExpr(t.X)
 	case *ast.SelectorExpr:
-		if _, ok := t.X.(*ast.Ident); ok && fc.guarded[t.Sel.Name] {
+		if fc.guarded[t.Sel.Name] && fc.isBase(t.X) {
 			return fc.fieldType[t.Sel.Name]
 		}
 	case *ast.IndexExpr:
@@ -902,4 +1383,70 @@ func wiredFetchers(repo string) [][2]string {
 		})
 	}
 	return out
+}
+
+// inlineIR replaces the calls of a sequence by the callees' sequences (bounded depth)
+func inlineIR(irs map[string][]instr, name string, depth int) []instr {
+	var out []instr
+	for _, i := range irs[name] {
+		if i.op == "Call" {
+			if depth > 0 && i.arg != name {
+				out = append(out, inlineIR(irs, i.arg, depth-1)...)
+			}
+			continue
+		}
+		out = append(out, i)
+	}
+	return out
+}
+
+func crossCall(g string) bool {
+	for _, v := range callbackBinding {
+		if v == g {
+			return true
+		}
+	}
+	return false
+}
+
+// bindingSites checks the three statements that wire frrk8s' configChangedCallback to
+// FRRK8sReconciler.UpdateConfig
+func bindingSites(repo string) bool {
+	has := func(rel string, pred func(ast.Node) bool) bool {
+		_, f := parse(repo, rel)
+		if f == nil {
+			return false
+		}
+		found := false
+		ast.Inspect(f, func(x ast.Node) bool {
+			if x != nil && pred(x) {
+				found = true
+			}
+			return !found
+		})
+		return found
+	}
+	selName := func(e ast.Expr) string {
+		if s, ok := e.(*ast.SelectorExpr); ok {
+			return s.Sel.Name
+		}
+		return ""
+	}
+	a := has("internal/k8s/k8s.go", func(x ast.Node) bool {
+		as, ok := x.(*ast.AssignStmt)
+		return ok && len(as.Lhs) == 1 && len(as.Rhs) == 1 && selName(as.Lhs[0]) == "BGPEventCallback" && selName(as.Rhs[0]) == "UpdateConfig"
+	})
+	b := has("speaker/main.go", func(x ast.Node) bool {
+		c, ok := x.(*ast.CallExpr)
+		return ok && selName(c.Fun) == "SetEventCallback" && len(c.Args) == 1 && selName(c.Args[0]) == "BGPEventCallback"
+	})
+	c := has("internal/bgp/frrk8s/frrk8s.go", func(x ast.Node) bool {
+		as, ok := x.(*ast.AssignStmt)
+		if !ok || len(as.Lhs) != 1 || len(as.Rhs) != 1 || selName(as.Lhs[0]) != "configChangedCallback" {
+			return false
+		}
+		_, isParam := as.Rhs[0].(*ast.Ident)
+		return isParam
+	})
+	return a && b && c
 }
